@@ -87,6 +87,8 @@ def config(name):
         return "T", dict(landmarks=data("LMT"), ls_time=1.0, optimizer="adam", n_iter=4), [], False
     if name == "T-auto":     # ls_time is computed (per-time-point helper fits read nn_distances, d, ls, mu)
         return "T", dict(n_landmarks=0, optimizer="adam", n_iter=4), ["landmarks"], True
+    if name == "T-norm":     # per-time-point normalisation with unequal targets: ls must keep using the un-normalised distances
+        return "T", dict(n_landmarks=0, ls_time=1.0, optimizer="adam", n_iter=4, normalize_per_time_point=[6.0, 14.0]), ["landmarks"], True
     if name == "M-full":
         return "M", dict(n_landmarks=0, optimizer="adam", n_iter=3), ["landmarks"], True
     raise ValueError(name)
@@ -691,6 +693,9 @@ def run(ctx, res):
                     ("T-fixed-over", ["FI J T", "FP N F"]), ("M-fixed-over", ["FI J T", "FI N T"])):
         run_case(ctx, res, {"op": "history", "config": c_, "ops": ops})
     run_case(ctx, res, {"op": "subset", "config": "D-fixed-over", "subset": ["landmarks"]})
+    for S in (["nn_distances"], ["nn_distances", "mu", "d"], ["ls"]):
+        run_case(ctx, res, {"op": "subset", "config": "T-norm", "subset": S})
+    run_case(ctx, res, {"op": "history", "config": "T-norm", "ops": ["FI J T", "FP N F"]})
     run_case(ctx, res, {"op": "subset", "config": "D-fixed-over", "subset": ["landmarks", "L", "Lp"]})
     glue_plan = [("D", {}), ("D", {"landmarks": True}), ("D", {"landmarks": True, "gp_type": "sparse_nystroem", "rank": 3}),
                  ("D", {"gp_type": "full_nystroem", "rank": 0.9, "ls_factor": 2.0}), ("T", {}), ("T", {"normalize": True}),
